@@ -566,6 +566,8 @@ class FuncAnalysis:
                 recv_objs = self.pts.get("self", set())
             elif isinstance(f, ast.Attribute):
                 recv_objs = self.ev(f.value)
+            elif isinstance(f, ast.Name) and cs.name == "__call__":
+                recv_objs = self.ev(f)          # the called instance itself is `self`
         inst: Optional[AO] = None
         if cs.kind == "ctor":
             inst = self.alloc(n, "instance", cs.ctor_class or "")
